@@ -163,6 +163,12 @@ def gen_wrap_streams(rng, count, end_styles=('marker', 'sized')):
         pbld = random_program(rng, 4000, 4096, lit_bias=1, until=4096 * laps - 600)
         exact_size_syms(pbld, 4096 * laps - pbld.n)
         pbld.lit(rng.below(256))
+        if k % 2 == 0:
+            # ... then a NON-overlapping copy whose source straddles the physical wrap point while its destination does not
+            for _ in range(rng.range(20, 60)): pbld.lit(rng.below(256))
+            kk = pbld.n - 4096 * laps                      # cursor position
+            L = rng.range(5, 40); j = rng.range(1, L - 1)
+            if kk + j >= L: pbld.match(kk + j, L)
         for _ in range(rng.range(3, 40)): pbld.random_sym(rng, rng.choice([1, 3]))
         style = rng.choice(list(end_styles))
         reqs.append('ref_lzma lc=%d lp=%d pb=%d dict=%d size=%s delta=0 prog=%s' % (lc, lp, pb, rng.choice([0, 4096]), 'none' if style == 'marker' else str(pbld.n), pbld.text(style != 'sized')))
@@ -417,6 +423,31 @@ def gen_l2_badcopy_streams(rng, count):
         out.append(b)
     return out
 
+def gen_l2_props_sweep(rng, transitions=40):
+    """well-formed LZMA2 streams covering EVERY legal properties triple (lc + lp <= 4, pb <= 4: 75 of them) as the first chunk's
+    properties, and property changes between chunks - in particular pairs where a careless size comparison (lc+lp against lc+pb
+    and the like) would wrongly reuse a table"""
+    triples = [(lc, lp, pb) for lc in range(5) for lp in range(5 - lc) for pb in range(5)]
+    def prog():
+        pb = ProgBuilder(None)
+        for _ in range(rng.range(2, 12)): pb.random_sym(rng, 2)
+        return pb
+    reqs = []
+    for (lc, lp, pb) in triples:
+        reqs.append('ref_lzma2 chunks=Z3:%d,%d,%d:0:%s' % (lc, lp, pb, prog().text()))
+    pairs = [(a, b) for a in triples for b in triples if a != b and (a[0] + a[1] == b[0] + b[2] or a[0] + a[2] == b[0] + b[1] or a[0] + a[1] != b[0] + b[1])]
+    for _ in range(transitions):
+        a, b = rng.choice(pairs)
+        p1 = prog(); p2 = ProgBuilder(None); cls = rng.choice([2, 3])
+        if cls == 2: p2.n = p1.n
+        for _ in range(rng.range(2, 12)): p2.random_sym(rng, 2)
+        reqs.append('ref_lzma2 chunks=Z3:%d,%d,%d:0:%s/Z%d:%d,%d,%d:0:%s' % (a + (p1.text(),) + (cls,) + b + (p2.text(),)))
+    out = []
+    for enc, rq in zip(ref_encode(reqs), reqs):
+        if enc is None: raise InfraError('reference serialiser rejected a properties-sweep stream: ' + rq[:200])
+        out.append({'bytes': enc[0], 'out': enc[1], 'stats': {'Zprops': 1}, 'big': None, 'ref': rq[:300]})
+    return out
+
 def gen_lzma2_streams(rng, count, big_sizes=()):
     reqs, metas = [], []
     bigs = list(big_sizes)
@@ -467,6 +498,8 @@ def run_C02(ck):
     streams = gen_lzma2_streams(rng, n, bigs)
     mp = max_packed_stream(rng)
     if mp: streams.append(mp); ck.count('chunk_with_packed_size_0xFFFF')
+    sweep = gen_l2_props_sweep(rng, 40 if ck.tier == 'quick' else 300)
+    streams += sweep; ck.count('props_sweep_streams', len(sweep))
     # tiny continuation chunks: after a chunk that trained the model, a chunk of one or two cheap symbols has a payload of exactly
     # the five coder init bytes (compressed-size field 4) - the smallest legal compressed chunk
     treqs = []
@@ -2028,6 +2061,15 @@ def run_C07(ck):
     cases = []
     def add(line, kind):
         cases.append({'line': line, 'meta': {'kind': kind}}); ck.count('kind_' + kind)
+    # well-formed inputs of the shapes where an index or slice bound is tightest: every legal LZMA2 properties triple and
+    # property changes (table re-sizing), the 0xFFFF-payload chunk, outputs crossing the window with copies straddling the wrap
+    for s_ in gen_l2_props_sweep(rng, 40 if quick else 200):
+        add('lzma2_dec in=%s' % hx(s_['bytes']), 'valid_props_sweep')
+    mp_ = max_packed_stream(rng)
+    if mp_: add('lzma2_dec in=%s' % hx(mp_['bytes']), 'valid_max_packed')
+    for s_ in gen_wrap_streams(rng, 6 if quick else 30, ('marker', 'sized', 'sized+marker')):
+        add('lzma_dec opt=rfh in=%s rd=%s' % (hx(s_['bytes']), rng.choice(['all', '1', 'std:buf:7'])), 'valid_wrap')
+        add('stream opt=rfh calls=%s' % stream_calls(s_['bytes'], chunkings(rng, len(s_['bytes']), rng.choice(['random', 'single', 'whole']))), 'valid_wrap_stream')
     OPTS = ['rfh', 'rhp:none', 'rhp:%d', 'up:none', 'up:%d']
     def opt(): 
         o = rng.choice(OPTS)
